@@ -124,3 +124,30 @@ def epochFlowOK (pre post : St) : Bool :=
     decide ((post.buckets.get sym).getD 0 ≤ b.2) && decide (left ≤ toWallets + toPool))
 
 end Sif.Spec.C18
+
+namespace Sif.Spec.C18
+open Sif Sif.Clp
+
+/-- provider distribution (LPPD) as paid by one real EndBlocker (L1): every account's native-token gain is the sum,
+    over the pools it is a provider OF, of its share (its units over the pool's units) of that pool's
+    distribution (block rate × native balance), to within one base unit plus 10⁻¹⁸ of the distribution per provider
+    of the pool; an account that is a provider of no pool gains nothing.  `rate` = the block rate when an LPPD
+    period distributes at this height, 0 otherwise.  Judged in worlds without blocked recipients and only when no
+    reward period distributes depth rewards to providers in the same block. -/
+def lppdSharesOK (rate : Dec) (pre : St) (changes : List (String × String × Nat × Nat)) : Bool :=
+  let accounts := ((pre.lps.map (fun e => e.2.map (·.1))).flatten ++ (changes.map (·.1)).filter (· != clpAcct)).eraseDups
+  accounts.all (fun acct =>
+    let paid : Nat := match changes.find? (fun c => c.1 == acct && c.2.1 == rowan) with
+                      | some c => c.2.2.2 - c.2.2.1
+                      | none => 0
+    let ft : Rat × Rat := pre.pools.foldl (fun (acc : Rat × Rat) e =>
+        let p := e.2
+        match (pre.lpsOf p.sym).get acct with
+        | none => acc
+        | some lp =>
+          let D : Rat := decToRat rate * (Nat.cast p.nBal : Rat)
+          let n : Nat := (pre.lpsOf p.sym).length
+          (acc.1 + mkRat lp.units p.units * D, acc.2 + (Nat.cast n : Rat) * eps D)) (0, 0)
+    decide ((Nat.cast paid : Rat) ≤ ft.1 + ft.2) && decide (ft.1 - ft.2 ≤ (Nat.cast paid : Rat)))
+
+end Sif.Spec.C18
